@@ -376,3 +376,56 @@ package mysql
 //@   loop 0 invariant fresh(message1) && len(message1) == 32 && len(message2) == 32
 //@   ensures len(password) == 0 ==> ret0 == nil
 //@   ensures len(password) != 0 ==> fresh(ret0) && len(ret0) == 32
+
+// ---------------------------------------------------------------- C13 binary rows carry the values of the text rows
+// Verified cases of AppendBinaryValue: integer values (every Go integer kind) into the integer column widths, and byte strings /
+// strings into the length-encoded column types. (Floats, decimals and the date/time encodings go through strconv / time / decimal
+// and are not under contract.)
+//@ pure intKind(v interface{}) bool = typeis(v, int8) || typeis(v, int16) || typeis(v, int32) || typeis(v, int64) || typeis(v, int) || typeis(v, uint8) || typeis(v, uint16) || typeis(v, uint32) || typeis(v, uint64) || typeis(v, uint)
+//@ pure u64of(v interface{}) uint64 = ite(typeis(v, int8), uint64(unbox(v, int8)), ite(typeis(v, int16), uint64(unbox(v, int16)), ite(typeis(v, int32), uint64(unbox(v, int32)), ite(typeis(v, int64), uint64(unbox(v, int64)), ite(typeis(v, int), uint64(unbox(v, int)), ite(typeis(v, uint8), uint64(unbox(v, uint8)), ite(typeis(v, uint16), uint64(unbox(v, uint16)), ite(typeis(v, uint32), uint64(unbox(v, uint32)), ite(typeis(v, uint64), unbox(v, uint64), uint64(unbox(v, uint)))))))))))
+// the column types MySQL sends as length-encoded strings in binary rows
+//@ pure lenEncType(t uint8) bool = t == TypeNewDecimal || t == TypeJSON || t == TypeString || t == TypeVarString || t == TypeVarchar || t == TypeBit || t == TypeTinyBlob || t == TypeMediumBlob || t == TypeLongBlob || t == TypeBlob || t == TypeEnum || t == TypeSet || t == TypeGeometry || t == TypeDecimal
+// helpers of the date/time and decimal cases: they write nothing visible to the caller (assumed frames; their value encodings are not under contract)
+//@ func stringToMysqlTime
+//@   assigns \nothing
+//@ func mysqlTimeToBinaryResult
+//@   assigns \nothing
+//@   ensures ret0 == nil || fresh(ret0)
+//@ trusted (github.com/shopspring/decimal.Decimal).String
+//@   params d
+//@   pure-call
+//@ func AppendUint16
+//@   mode bv
+//@   requires len(data) < 1<<40
+//@   assigns data[len(data):cap(data)]
+//@   ensures len(ret0) == len(data) + 2 && le2(ret0, len(data)) == uint64(n) && forall(k, 0, len(data), ret0[k] == old(data[k]))
+//@   ensures fresh(ret0) || ret0[:len(data)] == data
+//@ func AppendUint32
+//@   mode int
+//@   requires len(data) < 1<<40
+//@   assigns data[len(data):cap(data)]
+//@   ensures len(ret0) == len(data) + 4
+//@   ensures uint64(ret0[len(data)]) == uint64(n) & 0xff && uint64(ret0[len(data)+1]) == (uint64(n) >> 8) & 0xff && uint64(ret0[len(data)+2]) == (uint64(n) >> 16) & 0xff && uint64(ret0[len(data)+3]) == (uint64(n) >> 24) & 0xff
+//@   ensures forall(k, 0, len(data), ret0[k] == old(data[k]))
+//@   ensures fresh(ret0) || ret0[:len(data)] == data
+//@ trusted github.com/XiaoMi/Gaea/util/hack.Slice
+//@   params s
+//@   pure-call
+//@   ensures len(ret0) == slen(s) && forall(k, 0, len(ret0), ret0[k] == sat(s, k))
+//@ property C13: AppendUint16, AppendUint32, AppendBinaryValue
+//@ func AppendBinaryValue
+//@   mode bv
+//@   requires len(data) < 1<<40
+//@   may-panic when true
+//@   ensures case grows:    ret1 == nil ==> len(ret0) >= len(data)
+//@   ensures case prefix:   ret1 == nil ==> forall(k, 0, len(data), ret0[k] == old(data[k]))
+//@   ensures case tiny:     intKind(value) && fieldType == TypeTiny ==> ret1 == nil && len(ret0) == len(data) + 1 && uint64(ret0[len(data)]) == u64of(value) & 0xff
+//@   ensures case short:    intKind(value) && (fieldType == TypeShort || fieldType == TypeYear) ==> ret1 == nil && len(ret0) == len(data) + 2 && le2(ret0, len(data)) == u64of(value) & 0xffff
+//@   ensures case long:     intKind(value) && (fieldType == TypeLong || fieldType == TypeInt24) ==> ret1 == nil && len(ret0) == len(data) + 4 && le4(ret0, len(data)) == u64of(value) & 0xffffffff
+//@   ensures case longlong: intKind(value) && fieldType == TypeLonglong ==> ret1 == nil && len(ret0) == len(data) + 8 && le8(ret0, len(data)) == u64of(value)
+//@   ensures case bytesLen:  typeis(value, []byte) && lenEncType(fieldType) && ret1 == nil ==> len(ret0) == len(data) + encLen(uint64(len(unbox(value, []byte)))) + len(unbox(value, []byte))
+//@   ensures case bytesTag:  typeis(value, []byte) && lenEncType(fieldType) && ret1 == nil ==> decLen(ret0[len(data)]) == encLen(uint64(len(unbox(value, []byte)))) && ret0[len(data)] != 0xfb
+//@   ensures case bytesVal:  typeis(value, []byte) && lenEncType(fieldType) && ret1 == nil ==> decVal(ret0, len(data)) == uint64(len(unbox(value, []byte)))
+//@   ensures case strLen:   typeis(value, string) && lenEncType(fieldType) && ret1 == nil ==> len(ret0) == len(data) + encLen(uint64(slen(unbox(value, string)))) + slen(unbox(value, string))
+//@   ensures case strTag:   typeis(value, string) && lenEncType(fieldType) && ret1 == nil ==> decLen(ret0[len(data)]) == encLen(uint64(slen(unbox(value, string)))) && ret0[len(data)] != 0xfb
+//@   ensures case strVal:   typeis(value, string) && lenEncType(fieldType) && ret1 == nil ==> decVal(ret0, len(data)) == uint64(slen(unbox(value, string)))
